@@ -29,6 +29,14 @@ type hostDecl struct {
 
 var trace []string // events of the current run, protocol form
 
+// callMarker prefixes the lines host functions write to (captured) standard output.
+const callMarker = "\x00CALL "
+
+func traceEvent(ev string) {
+	trace = append(trace, ev)
+	fmt.Fprintln(os.Stdout, callMarker+ev)
+}
+
 func (h hostDecl) tyT() *T {
 	ps := []*T{}
 	for _, p := range h.Params {
@@ -70,7 +78,7 @@ func (h hostDecl) build() *val.Val {
 	if h.Lazy {
 		order := h.Force
 		return val.LazyFun(ty, func(args ...*val.Val) *val.Val {
-			trace = append(trace, sxList("call", sxStr(name)))
+			traceEvent(sxList("call", sxStr(name)))
 			var last *val.Val
 			for _, i := range order {
 				last = args[i].Fun().Call()
@@ -83,7 +91,7 @@ func (h hostDecl) build() *val.Val {
 		for _, a := range args {
 			xs = append(xs, sxStr(a.String()))
 		}
-		trace = append(trace, sxList(xs...))
+		traceEvent(sxList(xs...))
 		if h.Fail {
 			panic(fmt.Errorf("hostfail:%s", name))
 		}
